@@ -6,7 +6,7 @@
    [H] is the 64-bit key hash: universally quantified, so every statement
    holds under hash collisions.  [cfg_valid c] is exactly what
    NewFailureCache accepts: 1 s <= initialTTL <= maxTTL <= 5 min. *)
-From Sdns Require Import Common.Base Gen.C13 C13.Model C13.Proofs_Base C13.Proofs_Backoff C13.Proofs_Cache C13.Proofs_Conc C13.Proofs_Gen C13.Proofs_Wire.
+From Sdns Require Import Common.Base Common.GoList Gen.C13 C13.Model C13.Proofs_Base C13.Proofs_Backoff C13.Proofs_Cache C13.Proofs_Conc C13.Proofs_Gen C13.Proofs_Wire C13.Proofs_Walk.
 Open Scope Z_scope.
 
 (* The backoff starts at the configured minimum, is non-decreasing, at most
@@ -53,6 +53,25 @@ Theorem zone_slot_verification_is_key_equality : forall pres : name -> list N,
                           (mk_T_FailureZoneKey (pres (zk_zone b)) (zk_class b)) = zkey_eqb a b.
 Proof. exact gen_zone_keys_equal. Qed.
 Print Assumptions zone_slot_verification_is_key_equality.
+
+(* The ancestor walk every lookup, retry key and reset rests on (the [suffixes]
+   of hit_only_exact_or_ancestor_zone, single_probe_key, streak_resets) IS the
+   loop of walkFailureZones as the translator reads it today, with miekg's
+   dns.NextLabel from the module cache: started on the presentation string of
+   an escape-free name (labels non-empty, no '.', no backslash; root = "."), it
+   ends by return, having handed the callback the presentation strings of
+   [suffixes n] in order, closest first, and stopped at the first one the
+   callback refused, else at the root.  The callback is a pure function of the
+   zone string; fuel: more than the string's length. *)
+Theorem zone_walk_is_the_translated_go_loop :
+  (forall fuel visit n, plain_name n -> (length (present n) < fuel)%nat ->
+     go_walkFailureZones_loop1_run fuel visit (present n) =
+       (GoRet tt, (visit, present (walk_stop visit (suffixes n))))) /\
+  (forall visit zs z, walk_stop visit (zs ++ [z]) =
+     match find (fun x => negb (visit (present x))) zs with Some y => y | None => z end) /\
+  (forall n, exists zs, suffixes n = zs ++ [[]]).
+Proof. exact (conj gen_zone_walk (conj walk_stop_find suffixes_snoc_root)). Qed.
+Print Assumptions zone_walk_is_the_translated_go_loop.
 
 (* NewFailureCache admits only valid bounds *)
 Theorem constructor_admits_only_valid_bounds : forall size i m c, new_cfg size i m = Some c -> cfg_valid c /\ 0 < size.
